@@ -4,6 +4,8 @@ Two sources of variants, both committed under /verif:
   * /verif/selftest/mutants.json - hand written single-site substitutions {property, id, module, old, new, expect, note}; `expect`
     is a rule id (the variant breaks the property: the named rule must report it) or "silent" (a behaviour-preserving rewrite: the
     property's rules must report nothing new - the guard against brittle, text-matching rules).
+  * /verif/known_findings.json `fixed:` lines - the sources of /repo just before each repair commit (read from git history with
+    `git show`, nothing is checked out); the rule that found the defect must report it there.
   * /verif/seeded/<id>/patch.diff + meta.json - the confirmed behaviour-breaking changes written by independent agents; meta.json
     records which rule ids caught them when they were confirmed ("caught_by"), or that they are a documented miss.
 
@@ -89,6 +91,17 @@ def load_variants(prop: str):
             for m in json.load(f)['mutants']:
                 if m['property'] == prop:
                     out.append((m['id'], 'subst', (m['module'], m['old'], m['new']), m['expect'], m.get('note', '')))
+    # repaired defects: the tree just before each `fix:` commit must still be reported by the rule that found it
+    known_p = os.path.join(HERE, 'known_findings.json')
+    if os.path.exists(known_p):
+        with open(known_p) as f:
+            for line in json.load(f).get('fixed', []):
+                m = re.match(r'fixed: property=(C\d\d) ([0-9a-f]{7,40}) (.*)', line, re.S)
+                if not m or m.group(1) != prop:
+                    continue
+                r = re.search(r'\b(R\d+\.\d+[a-z]?)\b', m.group(3))
+                if r:
+                    out.append((f'before-fix/{m.group(2)}', 'rev', m.group(2) + '^', r.group(1), m.group(3)[:80]))
     for d in sorted(glob.glob(os.path.join(SEEDED, '*'))):
         meta_p, patch_p = os.path.join(d, 'meta.json'), os.path.join(d, 'patch.diff')
         if not (os.path.exists(meta_p) and os.path.exists(patch_p)):
@@ -108,7 +121,17 @@ def _run_variant(args):
     from . import engine
     src = Repo.read_sources()
     try:
-        if kind == 'subst':
+        if kind == 'rev':
+            import subprocess
+            from .model import REPO, PKG_DIR
+            ls = subprocess.run(['git', '-C', REPO, 'ls-tree', '--name-only', payload, PKG_DIR + '/'], capture_output=True, text=True)
+            if ls.returncode != 0 or not ls.stdout.strip():
+                return 'stale', []          # history not available (shallow / exported tree)
+            src = {}
+            for n in ls.stdout.split():
+                if n.endswith('.py'):
+                    src[os.path.basename(n)[:-3]] = subprocess.run(['git', '-C', REPO, 'show', f'{payload}:{n}'], capture_output=True, text=True).stdout
+        elif kind == 'subst':
             module, old, new = payload
             if src[module].count(old) < 1:
                 return 'stale', []
@@ -144,6 +167,8 @@ def run_selftest(prop: str, rule_module, repo: Repo, base_keys=frozenset()) -> d
     jobs = [(prop, rule_module.__name__, kind, payload, base_keys) for _, kind, payload, _, _ in variants]
     outs = parallel_map(_run_variant, jobs, min_items=2)
     for (vid, kind, payload, expect, note), (status, new) in zip(variants, outs):
+        if kind == 'rev' and status == 'ok':
+            res['refound'] = res.get('refound', 0) + (1 if expect in {r for r, _ in new} else 0)
         if status == 'stale':
             res['stale'].append(vid)
             continue
